@@ -988,7 +988,7 @@ def py_tokens(ws):
             toks.append(("lit", lex_lit(t[2:])))
         elif t.startswith("P:"): toks.append(("path", t[2:]))
         elif t.startswith("B:"):
-            fs = [f for f in t[2:].split(";") if f]
+            fs = [f if "=" in f else f"{f}={f}" for f in t[2:].split(";") if f]     # `{ x }` is `{ x: x }`
             # named fields only: `{ 0: 1.0 }` (a tuple-index member) is rejected by the macro
             toks.append(("braces", fs) if all(f and not f[0].isdigit() for f in fs) else ("other", t))
         elif t.startswith("O:"): toks.append(("other", t))
@@ -1081,7 +1081,7 @@ def py_animator(ws):
     else:
         body = d[2:]
         if ":E:" in body: state, e = body.split(":E:", 1); defaults = "expr:" + e
-        elif ":I:" in body: state, fs = body.split(":I:", 1); defaults = "inline:" + "&".join(f for f in fs.split(";") if f)
+        elif ":I:" in body: state, fs = body.split(":I:", 1); defaults = "inline:" + "&".join((f if "=" in f else f"{f}={f}") for f in fs.split(";") if f)
         else: state, defaults = body, "none"
     ons, i = [], 1
     while i < len(ws):
